@@ -240,10 +240,18 @@ func genScenario(p *prng.R, i int, thorough bool) scenario {
 		s.Sender = local + "@" + s.Domain.U
 		s.Rcpt = prng.Pick(p, []string{"rcpt@example.net", "получатель@example.net", "rcpt@почта.example"})
 	} else {
-		// a non-EAI envelope can only carry the A-label form
-		s.Sender = local + "@" + s.Domain.A
-		if p.Chance(1, 6) {
+		// A non-EAI envelope can only carry the A-label form on the wire, but
+		// the SMTP endpoint hands the pipeline the cleaned address (domain in
+		// U-labels, module.DeliveryTarget contract) together with UTF8=false:
+		// that is the usual input of the signer for an IDN domain. Other
+		// sources may pass the A-label spelling through.
+		switch p.Intn(6) {
+		case 0:
 			s.Sender = local + "@" + strings.ToUpper(s.Domain.A)
+		case 1, 2:
+			s.Sender = local + "@" + s.Domain.A
+		default:
+			s.Sender = local + "@" + s.Domain.U
 		}
 		s.Rcpt = "rcpt@example.net"
 	}
